@@ -16,7 +16,7 @@ CHECKS = {
              'the paths on which the scan of the suffix ran to its end, and the items added are the productions of that rule '
              'at dot 0; goto carries an item over iff it is incomplete and its symbol at the dot is the transition symbol, '
              'with the same production and context and dot + 1; every incomplete item\'s symbol at the dot gets one '
-             'successor per state, computed by goto on that very symbol. Between its reset and its use the look-ahead set collected for the rule behind the dot only grows.',
+             'successor per state, computed by goto on that very symbol. Between its reset and its use the look-ahead set collected for the rule behind the dot only grows. Itemset::add answers true or what merging the context reported - never "unchanged" for an item whose look-ahead grew.',
         note='Each step is a necessary condition of "accepts exactly L(G)". That the steps compose to the canonical automaton '
              '(after Pager merging: C02) and language equality as such are NOT decided. Related steps are reported under other '
              'properties: closure work-list discipline and FIRST/nullable pairing (C04 R4.4/R4.5), reduce/accept cells (C03), '
@@ -56,7 +56,7 @@ CHECKS = {
              'up, the lexeme at the very input index used for the lookup, no repairs), no recoverer call and no value; the '
              'end-of-input lexeme is a faulty zero-length EOF lexeme at the end of the last real lexeme; action() is a pure '
              'decode of the table cell; with recovery on, every path of the arm that calls the recoverer pushes exactly one error '
-             'carrying that same state and lexeme, repairs found or not. Two necessary conditions of the table side: the LR(1) closure\'s work list is cleared '
+             'carrying that same state and lexeme, repairs found or not. Itemset::add never reports "unchanged" for an item whose look-ahead grew. Two necessary conditions of the table side: the LR(1) closure\'s work list is cleared '
              'only for the entry just taken, every taken entry is cleared, an entry is scheduled exactly when Itemset::add '
              'reports a change; and FIRST(Y) of a symbol behind the dot is merged together with a test of nullable(Y).',
         note='That the state the parser is in rejects exactly at the viable-prefix boundary is table correctness (C01) and is NOT decided beyond those two conditions. Trusted: ' + TB,
